@@ -7,7 +7,7 @@ G = None
 def register(progs, g):
     global G
     G = g
-    progs.update({'C17': prog_C17, 'C03': prog_C03, 'C16': prog_C16, 'C01': prog_C01, 'C02': prog_C02, 'C08': prog_C08, 'C09': prog_C09, 'C10': prog_C10, 'C15': prog_C15, 'C18': prog_C18, 'C07': prog_C07, 'C11': prog_C11, 'C13': prog_C13, 'C14': prog_C14, 'C12': prog_C12, 'C20': prog_C20, 'C04': prog_C04})
+    progs.update({'C17': prog_C17, 'C03': prog_C03, 'C16': prog_C16, 'C01': prog_C01, 'C02': prog_C02, 'C08': prog_C08, 'C09': prog_C09, 'C10': prog_C10, 'C15': prog_C15, 'C18': prog_C18, 'C07': prog_C07, 'C11': prog_C11, 'C13': prog_C13, 'C14': prog_C14, 'C12': prog_C12, 'C20': prog_C20, 'C04': prog_C04, 'C06': prog_C06})
 
 
 def plain_diff(ops_path, a_path, b_path, limit=40):
@@ -269,6 +269,24 @@ def prog_C18(ctx):
     ctx.cov['trusted_base'] += ['airgapped machine: no Lean model of the handlers (kyber DKG/VSS, ECIES, BLS); covered by fault injection on the real machine only: every operation a participant receives in a real ceremony is fed to a clone in structure-aware mutated forms (field deletion, type confusion, negative/huge integers, empty/oversized arrays, short identifiers, unknown types, truncated/bit-flipped/random/zero byte strings incl. nested JSON, reversed/huge signing ranges) behind a recover(); a refused operation must leave the database byte-identical',
                                 'byte-level coverage-guided fuzzing of the decoders is not part of this check (encoding/json is trusted)']
     ctx.cov['rule'] += '; sszdiff: reversed/negative/huge ranges; airdiff: per operation of a ceremony a sample (quick) or all (thorough) of its mutations'
+
+
+def prog_C06(ctx):
+    G['fsm_family'](ctx, ['Dc4bcVerif.Props.C06'], ['C06'], ['event_signing_'])
+    # "in either case the round returns to idle and accepts the next proposal" is the NODE's doing (it applies the restart event
+    # after a collected or failed batch and stores the result): the node layer is tied by nodediff, with its own monitor
+    res = run_linediff(ctx, 'nodediff', 'node')
+    if res is not None:
+        for mline in (res['stats'].get('Monitors') or []):
+            if mline.startswith('C06 '):
+                ctx.violations.append(dict(kind='impl-counterexample', driver='nodediff', what=mline))
+        if res['lean_ok']:
+            rel = [d for d in res['diffs'] if 'event_signing' in d['op'] or d['op'].startswith('exec')]
+            if rel:
+                ctx.broken.append(dict(kind='correspondence', what='nodediff: real node and Lean node model disagree on %d of %d operations (%d of the shown ones are signing messages or answers)' % (res['ndiffs'], res['nops'], len(rel)),
+                                       detail='', diffs=rel[:10], script=os.path.join(res['dir'], 'ops.txt')))
+        ctx.cov['node_layer'] = dict(operations=res['nops'], disagreements=res['ndiffs'], batches_completed_by_the_observed_node=res['stats'].get('CollectedHere'))
+        ctx.cov['trusted_base'] = ctx.cov.get('trusted_base', []) + ['correspondence nodediff (the node applies event_signing_restart after a collected or failed batch and stores the result): as for C07/C18']
 
 
 def prog_C07(ctx):
